@@ -692,20 +692,11 @@ func loadCap(ref int64) int64 {
 // adaptToSync turns a generated non-sweep strategy into a sweep (3 runs out of
 // 4) when the solo profile of the scenario contains synchronising statements.
 // On a tree without synchronisation in its read paths (today's) it never fires.
-func adaptToSync(st *Strategy, tasks []TaskSpec, refs map[string]unitRef) {
+func adaptToSync(st *Strategy, profiles []map[int]int32) {
 	if st.Kind == "sweep" || st.Kind == "replay" || st.Resolved {
 		return
 	}
-	has := false
-	for ti := range tasks {
-		for ui := range tasks[ti].Units {
-			for site := range refs[tasks[ti].Units[ui].key()].sites {
-				if site > 0 && site < len(siteSync) && siteSync[site] {
-					has = true
-				}
-			}
-		}
-	}
+	has := profilesHaveSync(profiles)
 	if has && NewRng(st.Seed^0xada9).Chance(0.75) {
 		st.Kind = "sweep"
 	}
@@ -714,7 +705,35 @@ func adaptToSync(st *Strategy, tasks []TaskSpec, refs map[string]unitRef) {
 // resolveSweep fixes the target of a sweep strategy from the solo profile of
 // the scenario: a task (among the first nTasks tasks), one of the DISTINCT
 // sites its units visit when run alone (uniformly), and which visit.
-func resolveSweep(st *Strategy, tasks []TaskSpec, refs map[string]unitRef) {
+// profilesHaveSync: does any task's site profile contain a synchronising
+// statement (or the statement after one)?
+func profilesHaveSync(profiles []map[int]int32) bool {
+	for _, p := range profiles {
+		for site := range p {
+			if site > 0 && site < len(siteSync) && siteSync[site] {
+				return true
+			}
+		}
+	}
+	return false
+}
+
+// coldProfiles aggregates, per task, the solo (cold, de-duplicated) site
+// profiles of its units.
+func coldProfiles(tasks []TaskSpec, refs map[string]unitRef) []map[int]int32 {
+	out := make([]map[int]int32, len(tasks))
+	for ti := range tasks {
+		out[ti] = map[int]int32{}
+		for ui := range tasks[ti].Units {
+			for site, n := range refs[tasks[ti].Units[ui].key()].sites {
+				out[ti][site] += n
+			}
+		}
+	}
+	return out
+}
+
+func resolveSweep(st *Strategy, tasks []TaskSpec, profiles []map[int]int32) {
 	if st.Kind != "sweep" || st.Resolved {
 		return
 	}
@@ -731,10 +750,8 @@ func resolveSweep(st *Strategy, tasks []TaskSpec, refs map[string]unitRef) {
 	}
 	st.Task = cand[r.Intn(len(cand))]
 	agg := map[int]int32{}
-	for ui := range tasks[st.Task].Units {
-		for site, n := range refs[tasks[st.Task].Units[ui].key()].sites {
-			agg[site] += n
-		}
+	if st.Task < len(profiles) {
+		agg = profiles[st.Task]
 	}
 	if len(agg) == 0 {
 		return
